@@ -261,21 +261,15 @@ pub fn propagate_input_expressions(
                 var,
                 address: expression,
             } => {
-                // insert known input expressions
-                for (input_var, input_expr) in insertable_expressions.iter() {
-                    expression.substitute_input_var(input_var, input_expr);
-                }
+                insert_known_input_expressions(expression, &insertable_expressions);
                 // expressions dependent on the assigned variable are no longer insertable
                 insertable_expressions.retain(|input_var, input_expr| {
                     input_var != var && !input_expr.input_vars().into_iter().any(|x| x == var)
                 });
             }
             Def::Store { address, value } => {
-                // insert known input expressions
-                for (input_var, input_expr) in insertable_expressions.iter() {
-                    address.substitute_input_var(input_var, input_expr);
-                    value.substitute_input_var(input_var, input_expr);
-                }
+                insert_known_input_expressions(address, &insertable_expressions);
+                insert_known_input_expressions(value, &insertable_expressions);
             }
         }
     }
@@ -288,11 +282,32 @@ pub fn propagate_input_expressions(
             }
             | Jmp::CallInd { target: expr, .. }
             | Jmp::Return(expr) => {
-                // insert known input expressions
-                for (input_var, input_expr) in insertable_expressions.iter() {
-                    expr.substitute_input_var(input_var, input_expr);
-                }
+                insert_known_input_expressions(expr, &insertable_expressions);
             }
+        }
+    }
+}
+
+/// Insert the known expressions for the input variables of the given expression.
+///
+/// The input variables are substituted in the order of their occurrence in the expression
+/// and not in the iteration order of the hash map.
+/// Otherwise the result would depend on the hash seed whenever an insertable expression
+/// contains a variable that is itself insertable
+/// (which can happen because of the complexity limit for inserted expressions).
+fn insert_known_input_expressions(
+    expression: &mut Expression,
+    insertable_expressions: &HashMap<Variable, Expression>,
+) {
+    let mut input_vars: Vec<Variable> = Vec::new();
+    for input_var in expression.input_vars() {
+        if !input_vars.contains(input_var) {
+            input_vars.push(input_var.clone());
+        }
+    }
+    for input_var in input_vars.iter() {
+        if let Some(input_expr) = insertable_expressions.get(input_var) {
+            expression.substitute_input_var(input_var, input_expr);
         }
     }
 }
